@@ -39,19 +39,12 @@ theorem options_decoded (c : SrvCfg) (mac : Bytes) (hm : c.mask.length = 4) (hl 
     d.domainName = c.domain :=
   Proofs.Decision.options_decoded c mac hm hl hls
 
-/-- The DHCP message inside a reply frame, read back with the stack's own decoders. -/
-def decodedReply (f : Frame) : Option Msg :=
-  match decodeIPv4 f.pkt with
-  | .ok ip => match decodeUDP ip.data with
-    | .ok u => match decode u.data with
-      | .ok r => some r
-      | .error _ => none
-    | .error _ => none
-  | .error _ => none
+-- `decodedReply` (the DHCP message inside a reply frame, read back with the stack's own decoders)
+-- lives in `Spec/ReplySpec.lean`.
 
 /-- OFFER and ACK to the same client carry the same parameters: read back from the wire, both
 carry exactly `dhcpOptions` after message type and server identifier, and the same address. -/
-theorem offer_ack_agree (c : SrvCfg) (hc : C06.CfgWf c) (m : Msg) (y : Ip4)
+theorem offer_ack_agree (c : SrvCfg) (hc : CfgWf c) (m : Msg) (y : Ip4)
     (hx : m.xid < 4294967296) (hf : m.flags < 65536) (hch : m.chaddr.length ≤ 16) :
     ∃ r₁ r₂, decodedReply (leaseFrame c .offer m y) = some r₁ ∧ decodedReply (leaseFrame c .ack m y) = some r₂ ∧
       r₁.options.drop 2 = c.dhcpOptions m.chaddr ∧ r₂.options.drop 2 = c.dhcpOptions m.chaddr ∧
